@@ -102,11 +102,11 @@ type panicRec struct {
 }
 
 type srv struct {
-	s      *server.Server
-	ds     storage.OpenFGADatastore
-	unary  grpc.UnaryServerInterceptor
-	stream grpc.StreamServerInterceptor
-	std    *env // shared store for read-only RPCs
+	s            *server.Server
+	ds           storage.OpenFGADatastore
+	unary        grpc.UnaryServerInterceptor
+	stream       grpc.StreamServerInterceptor
+	std          *env // shared store for read-only RPCs
 	modelChecked bool
 }
 
